@@ -506,3 +506,11 @@ pub fn status_condition_async(
 ) -> crate::dds_async::condition::StatusConditionAsync {
     crate::dds_async::condition::StatusConditionAsync::new(dcps_sender, entity)
 }
+
+// ---- engine `xcdr` (C07 XCDR part, C09, C10): serializer / deserializer entry points ----
+pub use crate::xtypes::deserializer::{
+    deserialize_top_level_type, deserialize_top_level_type_from_representation_identifier,
+};
+pub use crate::xtypes::serializer::{
+    serialize_cdr1_be, serialize_cdr1_le, serialize_cdr2_be, serialize_cdr2_le,
+};
